@@ -233,7 +233,7 @@ CHECKS = {
              'flow, generators are independent and span the complete flow basis read off the final Choi stabilizers; '
              'sample_if_circuit_has_stabilizer_flows and check_if_circuit_has_unsigned_stabilizer_flows agree with the oracle on '
              'generators, products, near misses (one Pauli/sign/measurement changed) and random flows; solve_for_flow_measurements '
-             'answers make the flow true and "no solution" only when none exists. Flows whose Pauli strings are longer or shorter than the circuit are queried; solve_for_flow_measurements must answer each flow the same alone and inside a batch.',
+             'answers make the flow true and "no solution" only when none exists. Flows whose Pauli strings are longer or shorter than the circuit are queried; solve_for_flow_measurements must answer each flow the same alone and inside a batch. RevFlow.flow_closed_form: on whole adaptive programs the reverse walk from an end observable decides the unsigned flow (which Pauli errors before the program change the observable times the flagged results).',
         note=TB + ' The flow solver is not modelled in Coq; obs[...] terms are not generated.',
         design='§4 C14'),
     'C13': dict(
@@ -249,7 +249,7 @@ CHECKS = {
              'decomposed/flattened/inverse/without_noise/without_tags/with_inlined_feedback/time_reversed_for_flows: original and result '
              'run on one Bell pair per qubit in Spec.srun with identical fault/sweep variables; (record, detectors, observables, final '
              'stabilizer signs) must be equal in distribution for every value of the shared variables (only detectors/observables for '
-             'inlined feedback); noise processes identical; structural demands per rewrite; reversed flows re-checked on the Choi state. The simplifier\'s cutting of an instruction into pieces without repeated qubits is regenerated from source and is Segs.segs1 / segs2 (pieces concatenate to the instruction, none repeats a qubit).',
+             'inlined feedback); noise processes identical; structural demands per rewrite; reversed flows re-checked on the Choi state. The simplifier\'s cutting of an instruction into pieces without repeated qubits is regenerated from source and is Segs.segs1 / segs2 (pieces concatenate to the instruction, none repeats a qubit). RevFlow.flow_closed_form: on whole adaptive programs the reverse walk from an end observable decides the unsigned flow (which Pauli errors before the program change the observable times the flagged results).',
         note=TB + ' The rewriting code other than the decomposition tables is tied by the oracle only; coordinates are compared through the coordinate queries tied by C15.',
         design='§4 C13'),
     'C10': dict(
